@@ -57,6 +57,8 @@ class Search:
         self.s_root = None
         self.s_table = None
         self.inline = False
+        self.functional = False
+        self.s_known = None
         self._locate()
 
     def _locate(self):
@@ -99,6 +101,21 @@ class Search:
                             self.s_table = p
                         elif p in marked and self.s_visited is None:
                             self.visited_name, self.s_visited = a.id, p
+                # functional style: `V = search(root, table, V)` - the callee returns the accumulated set
+                st = call.parent
+                if self.s_visited is None and isinstance(st, ast.Assign) and len(st.targets) == 1 and isinstance(st.targets[0], ast.Name):
+                    V = st.targets[0].id
+                    for p, a in amap.items():
+                        if isinstance(a, ast.Name) and a.id == V:
+                            self.functional = True
+                            self.visited_name, self.s_known = V, p
+                            pend = set()
+                            for n in walk_no_nested_defs(g.node):
+                                if isinstance(n, ast.While) and isinstance(n.test, ast.Name):
+                                    pend.add(n.test.id)
+                            local_marked = [m for m in marked if m not in pend and m not in g.params]
+                            if local_marked:
+                                self.s_visited = sorted(local_marked)[0]
                 break
 
     def _is_table(self, name):
@@ -218,6 +235,43 @@ def _guarded_by_not_in(node, subj_src, coll, fn):
     return found[0] if found else None
 
 
+def _functional_accumulation(ctx, chk, s, rule):
+    """`V = search(root, table, V)`: every value the search returns must contain the set it was given."""
+    g = s.search_fn
+    K, V = s.s_known, s.s_visited
+    cfg = ctx.cfg(g)
+    for r in [n for n in walk_no_nested_defs(g.node) if isinstance(n, ast.Return)]:
+        v = r.value
+        ok = False
+        if isinstance(v, ast.Name) and v.id == K:
+            ok = True
+        elif isinstance(v, ast.BinOp) and isinstance(v.op, ast.BitOr) and K in (src(v.left), src(v.right)):
+            ok = True
+        elif isinstance(v, ast.Call) and isinstance(v.func, ast.Attribute) and v.func.attr == "union" and (src(v.func.value) == K or any(src(a) == K for a in v.args)):
+            ok = True
+        elif isinstance(v, ast.Name):
+            # local initialised from the known set, or updated with it
+            for d in cfg.defs_reaching(r, v.id):
+                if isinstance(d, ast.Assign):
+                    dv = d.value
+                    if (isinstance(dv, ast.Call) and call_name(dv) in ("set", "list") and dv.args and src(dv.args[0]) == K) or \
+                            (isinstance(dv, ast.Call) and isinstance(dv.func, ast.Attribute) and dv.func.attr == "copy" and src(dv.func.value) == K) or \
+                            (isinstance(dv, ast.BinOp) and isinstance(dv.op, ast.BitOr) and K in (src(dv.left), src(dv.right))):
+                        ok = True
+            for n in walk_no_nested_defs(g.node):
+                if isinstance(n, ast.Call) and isinstance(n.func, ast.Attribute) and n.func.attr in ("update", "extend") and src(n.func.value) == v.id \
+                        and n.args and src(n.args[0]) == K and cfg.dominates(n, r):
+                    ok = True
+                if isinstance(n, ast.AugAssign) and isinstance(n.op, ast.BitOr) and src(n.target) == v.id and src(n.value) == K and cfg.dominates(n, r):
+                    ok = True
+        if ok:
+            chk.ok(rule, g.where(r), "`%s` returns a set that contains the states found for earlier roots (`%s`)" % (norm_stmt(r), K))
+        else:
+            chk.violation(rule, g.where(r), "`%s`: the search returns only what this root reached and the caller replaces its accumulator with it - "
+                          "states found for earlier final states are dropped from the result" % norm_stmt(r), expected="return a set containing `%s`" % K,
+                          found=norm_stmt(r), construct="%s drops earlier roots" % g.short)
+
+
 def r35_worklist(ctx, chk, rule3="C07.3", rule5="C07.5"):
     s = _search(ctx)
     if s.search_fn is None or s.s_visited is None:
@@ -227,6 +281,8 @@ def r35_worklist(ctx, chk, rule3="C07.3", rule5="C07.5"):
     g = s.search_fn
     V = s.s_visited
     fn = g.node
+    if s.functional:
+        _functional_accumulation(ctx, chk, s, rule5)
     # kind of the visited collection (allocation in the entry function)
     pt = shared.solver_pointsto(ctx)
     vobjs = pt.get(("local", s.f.qual, s.visited_name))
@@ -343,6 +399,12 @@ def r35_worklist(ctx, chk, rule3="C07.3", rule5="C07.5"):
             chk.ok(rule3, g.where(pu), "push `%s` is guarded by `%s not in %s` and marks the state in the same block" % (norm_stmt(pu), arg, V))
     # (e) the root is marked + pushed, guarded
     root_marked = [m for m in marks if src(m.value.args[0]) == s.s_root]
+    for n in walk_no_nested_defs(fn):
+        if isinstance(n, ast.Assign) and len(n.targets) == 1 and isinstance(n.targets[0], ast.Name) and n.targets[0].id == V:
+            v = n.value
+            elts = v.elts if isinstance(v, (ast.Set, ast.List)) else (v.args[0].elts if isinstance(v, ast.Call) and v.args and isinstance(v.args[0], (ast.List, ast.Set, ast.Tuple)) else [])
+            if any(src(e) == s.s_root for e in elts):
+                root_marked.append(n)
     if not root_marked:
         chk.undecided(rule5, g.where(), "the search root `%s` is never marked visited" % s.s_root)
     # exactly-once by type
